@@ -11,9 +11,10 @@
 (*   NoUnderflow          no instruction pops an empty stack               *)
 (*   FramesNested         activation records nest on the operand stack     *)
 (*   EndsBalanced  (C07)  a normal end leaves the operand stack empty      *)
-(* and, as a temporal property, that every program of the library stops    *)
-(* (the library holds programs whose real run ended).  Deadlock checking   *)
-(* is on: a running machine always has a step.                             *)
+(* Deadlock checking is on: a running machine always has a step.  The      *)
+(* library holds programs whose real run ended; Stops (every run of the    *)
+(* machine ends) is stated for them but not configured: TLC's liveness     *)
+(* threads do not see the register the library is parsed into.             *)
 (***************************************************************************)
 EXTENDS Json, IOUtils, TLC
 
@@ -24,9 +25,9 @@ ASSUME TLCSet(7, ndJsonDeserialize(IOEnv.TRACE))
 Lib == TLCGet(7)
 INSTANCE VM WITH Progs <- Lib
 
-Done == ~Running(s) /\ UNCHANGED vmvars
+Done == ~Running(s) /\ UNCHANGED <<pi, s, steps>>
 MCNext == VMNext \/ Done
-MCSpec == VMInit /\ [][MCNext]_vmvars /\ WF_vmvars(VMNext)
+MCSpec == VMInit /\ [][MCNext]_<<pi, s, steps>> /\ WF_<<pi, s, steps>>(VMNext)
 
 TypeOK == /\ pi \in 1..Len(Lib) /\ steps \in Nat
           /\ s.status \in {"run", "ok", "err", "unspec", "stuck"}
